@@ -1,6 +1,7 @@
 import RedisVerif.Driver.C07
 import RedisVerif.Driver.C08
 import RedisVerif.Driver.C06
+import RedisVerif.Driver.C01
 
 open RedisVerif.Driver
 
@@ -17,7 +18,6 @@ partial def loopState {Ïƒ : Type} (h : IO.FS.Stream) (out : IO.FS.Stream) (f : Ï
   let (s', o) := f s line
   out.putStrLn o
   loopState h out f s'
-
 def main (args : List String) : IO UInt32 := do
   let stdin â† IO.getStdin
   let stdout â† IO.getStdout
@@ -25,4 +25,5 @@ def main (args : List String) : IO UInt32 := do
   | ["C07"] => loop stdin stdout C07.step; return 0
   | ["C06"] => loopState stdin stdout C06.step (RedisVerif.Cluster.init 0 false); return 0
   | ["C08"] => loopState stdin stdout C08.step (RedisVerif.Shard.init 0 false); return 0
+  | ["C01"] | ["C17"] => loopState stdin stdout C01.stepLine RedisVerif.Redis.init; return 0
   | _ => IO.eprintln "usage: rvdriver <property-id> < ops"; return 2
